@@ -15,9 +15,14 @@ META = dict(
     text=("Spatial shift operators (velocity, acceleration, force; By/FromTo), relative velocity/acceleration and reversal are proved against their textbook "
           "definitions, shift round trips, power invariance F.V under a common shift, and 'acceleration shift = time derivative of velocity shift' (dual numbers); "
           "Inertia::pointMassAt == m(|p|^2 1 - p p^T), parallel-axis shifts are inverse pairs, SpatialInertia*V == rigid-body momentum, kinetic energy invariant "
-          "under SpatialInertia::shift/transform, ArticulatedInertia::shift == Phi P Phi^T incl. the hand-expanded halfCross* helpers; for all real inputs (z3 QF_NRA)."),
+          "under SpatialInertia::shift/transform, ArticulatedInertia::shift == Phi P Phi^T incl. the hand-expanded halfCross* helpers; "
+          "Rotation/InverseRotation::reexpressSymMat33 == R S ~R, Inertia::reexpress preserves the three invariants of the characteristic polynomial (principal moments) and is inverted by ~R; "
+          "MassProperties_: calcCentralInertia/calcShiftedInertia/calcTransformedInertia/calcShiftedMassProps/calcTransformedMassProps/reexpress agree with SpatialInertia::shift/transform/"
+          "reexpress (mass, mass centre ~X_BC*c, inertia), constructor from a full Inertia stores I/m; SpatialInertia += / -= add momenta and are inverse; "
+          "isValidInertiaMatrix accepts exactly when diagonals >= 0 and the triangle inequalities and product bounds hold within Significant*max(trace,1), on every path; "
+          "for all real inputs (z3 QF_NRA)."),
     note=("Assumes real arithmetic; trusts z3/cvc5, transliterator rules (logged), symlib shim; class plumbing (constructors, copy, storage of SymMat) is a thin shim "
-          "listed in the evidence as assumed. isValidInertiaMatrix thresholds and positive-semidefiniteness are not decided."),
+          "listed in the evidence as assumed. Positive-semidefiniteness of accepted inertias is not decided (the validity test checks necessary conditions only); Significant is a symbolic positive real."),
     technique="symbolic execution of transliterated real code over the reals + SMT (z3 QF_NRA), dual numbers for d/dt",
     design_ref="4 C29")
 
@@ -84,6 +89,8 @@ def build(ctx):
                 self.I_OF_F = S.SymMat(a[0].m)
             elif len(a) == 1:
                 self.I_OF_F = S.symmat33(a[0])
+            elif len(a) == 2 and isinstance(a[0], Vec):
+                self.I_OF_F = ns["Inertia_pointMassAt"](a[0], a[1]).I_OF_F      # Inertia_(p, mass) : I_OF_F(pointMassAt(p,mass)) {}
             elif len(a) == 6:
                 self.ctor6(*a)
             elif len(a) == 3:
@@ -97,7 +104,12 @@ def build(ctx):
             r = type(self)(self); r.I_OF_F = s * self.I_OF_F; return r
         def __add__(self, o): r = Inertia(self); r.I_OF_F = self.I_OF_F + o.I_OF_F; return r
         def __sub__(self, o): r = Inertia(self); r.I_OF_F = self.I_OF_F - o.I_OF_F; return r
-        def __mul__(self, w): return self.I_OF_F * w
+        def __mul__(self, w):
+            if S.is_scalar(w):                                    # operator*(Inertia, scalar): Inertia_(i) *= r
+                r = type(self)(self); r.I_OF_F = self.I_OF_F * w; return r
+            return self.I_OF_F * w
+        def reexpress(self, R): return type(self)((~R).reexpressSymMat33(self.I_OF_F))     # one-line members of the header, both overloads
+        def reexpressInPlace(self, R): self.I_OF_F = (~R).reexpressSymMat33(self.I_OF_F); return self
         def toMat33(self): return Mat(self.I_OF_F.m)
         def asSymMat33(self): return self.I_OF_F
     class UnitInertia(Inertia):
@@ -136,6 +148,61 @@ def build(ctx):
     B.add_method(SpatialInertia, MP_H, r"Vec3P calcMassMoment\(\) const\s*", "calcMassMoment", members=SM, cxxname="SpatialInertia_::calcMassMoment")
     B.add_method(SpatialInertia, MP_H, r"InertiaP calcInertia\(\) const\s*", "calcInertia", members=SM, cxxname="SpatialInertia_::calcInertia")
 
+    B.add_method(SpatialInertia, MP_H, r"SpatialInertia_& reexpressInPlace\(const Rotation_<P>& R_FB\)\s*", "reexpressInPlace", members=SM, cxxname="SpatialInertia_::reexpressInPlace")
+    B.add_method(SpatialInertia, MP_H, r"SpatialInertia_& transformInPlace\(const Transform_<P>& X_FB\)\s*", "transformInPlace", members=SM, methods=SMeth, cxxname="SpatialInertia_::transformInPlace")
+    B.add_method(SpatialInertia, MP_H, r"SpatialInertia_ transform\(const Transform_<P>& X_FB\) const\s*", "transform", members=SM, methods=SMeth + ["transformInPlace"], extra_pre=lambda b: b.replace("SpatialInertia_(*this)", "SpatialInertia_(self)"), cxxname="SpatialInertia_::transform")
+    B.add_method(SpatialInertia, MP_H, r"SpatialInertia_& operator\+=\(const SpatialInertia_& src\)\s*", "iadd", members=SM, methods=SMeth, extra_pre=lambda b: re.sub(r"SimTK_ERRCHK\([^;]*;", "", b), cxxname="SpatialInertia_::operator+=")
+    B.add_method(SpatialInertia, MP_H, r"SpatialInertia_& operator-=\(const SpatialInertia_& src\)\s*", "isub", members=SM, methods=SMeth, extra_pre=lambda b: re.sub(r"SimTK_ERRCHK\([^;]*;", "", b), cxxname="SpatialInertia_::operator-=")
+
+    # ---- Rotation_/InverseRotation_::reexpressSymMat33 (the real bodies; C27 proves the first against R S ~R as well) ----
+    class Rot(Mat):
+        def __init__(self, m): Mat.__init__(self, [list(r_) for r_ in (m.m if isinstance(m, Mat) else m)])
+        def asMat33(self): return self
+        def __invert__(self): return InvRot(Mat.__invert__(self))
+    class InvRot(Rot):
+        def __invert__(self): return Rot(Mat.__invert__(self))
+    rpre = lambda b: b.replace("R.template getSubMat<3,2>(0,0)", "R.getSubMat(3,2,0,0)").replace("this->asMat33()", "self.asMat33()")
+    B.add_method(Rot, ROT_CPP, r"Rotation_<P>::reexpressSymMat33\(const SymMat33P& S_BB\) const\s*", "reexpressSymMat33", methods=["asMat33"], extra_pre=rpre, cxxname="Rotation_<P>::reexpressSymMat33")
+    B.add_method(InvRot, ROT_CPP, r"InverseRotation_<P>::reexpressSymMat33\(const SymMat<3,P>& S_BB\) const\s*", "reexpressSymMat33", methods=["asMat33"],
+                 extra_pre=lambda b: rpre(b).replace("SymMat<3,P>(", "SymMat33P("), cxxname="InverseRotation_<P>::reexpressSymMat33")
+    ns["Mat32P"] = ns["Mat32"]; ns["Mat22P"] = ns["Mat22"]
+    class XForm:                                            # Transform_ plumbing: (R,p); ~X applied to a station s is ~R (s - p)
+        def __init__(self, R, p): self._R, self._p = R, p
+        def R(self): return self._R
+        def p(self): return self._p
+        def __invert__(self): return InvXForm(self)
+    class InvXForm:
+        def __init__(self, X): self.X = X
+        def __mul__(self, v): return Mat.__invert__(self.X._R) * (v - self.X._p)
+    # ---- MassProperties_ ----
+    class MassProperties:
+        def __init__(self, m, com, inertia):
+            self.setMassProperties(D.lift(m), com, inertia)
+        def setMassProperties(self, m, com, inertia):       # overload resolution on the static type of the third argument
+            return self.setMP_unit(m, com, inertia) if isinstance(inertia, UnitInertia) else self.setMP_inertia(m, com, inertia)
+    ns["MassProperties_"] = MassProperties; ns["Inertia__P"] = Inertia; ns["UnitInertia__P"] = UnitInertia
+    MM = ["mass", "comInB", "unitInertia_OB_B"]
+    MMeth = ["calcCentralInertia", "calcShiftedInertia", "calcTransformedInertia", "calcInertia"]
+    mpre = lambda b: re.sub(r"SimTK_ASSERT\([^;]*;", "", b)
+    B.add_method(MassProperties, MP_H, r"MassProperties_& setMassProperties\(const P& m, const Vec<3,P>& com, const Inertia_<P>& inertia\)\s*", "setMP_inertia", members=MM, extra_pre=mpre, cxxname="MassProperties_::setMassProperties(m,com,Inertia)")
+    B.add_method(MassProperties, MP_H, r"MassProperties_& setMassProperties\s*\(const P& m, const Vec<3,P>& com, const UnitInertia_<P>& gyration\)\s*", "setMP_unit", members=MM, cxxname="MassProperties_::setMassProperties(m,com,UnitInertia)")
+    for nm, sig in (("calcInertia", r"const Inertia_<P> calcInertia\(\) const\s*"), ("calcCentralInertia", r"Inertia_<P> calcCentralInertia\(\) const\s*"),
+                    ("calcShiftedInertia", r"Inertia_<P> calcShiftedInertia\(const Vec<3,P>& newOriginB\) const\s*"),
+                    ("calcTransformedInertia", r"Inertia_<P> calcTransformedInertia\(const Transform_<P>& X_BC\) const\s*"),
+                    ("calcShiftedMassProps", r"MassProperties_ calcShiftedMassProps\(const Vec<3,P>& newOriginB\) const\s*"),
+                    ("calcTransformedMassProps", r"MassProperties_ calcTransformedMassProps\(const Transform_<P>& X_BC\) const\s*"),
+                    ("reexpress", r"MassProperties_ reexpress\(const Rotation_<P>& R_BC\) const\s*")):
+        B.add_method(MassProperties, MP_H, sig, nm, members=MM, methods=MMeth, cxxname="MassProperties_::" + nm)
+    # ---- isValidInertiaMatrix ----
+    class SM3:                                              # SymMat<3,P> views used by the validity test: isNaN (reals: never), diag(), getLower() = (m10, m20, m21)
+        def __init__(self, sm): self.sm = sm
+        def isNaN(self): return False
+        def diag(self): return Vec(self.sm.m[0][0], self.sm.m[1][1], self.sm.m[2][2])
+        def getLower(self): return Vec(self.sm.m[1][0], self.sm.m[2][0], self.sm.m[2][1])
+    ns["SM3"] = SM3
+    B.add_function(MP_H, r"static bool isValidInertiaMatrix\(const SymMat<3,P>& m\)\s*", pyname="isValidInertiaMatrix", cxxname="Inertia_::isValidInertiaMatrix",
+                   pre=lambda b: b.replace("NTraits<P>::getSignificant()", "SignificantP").replace("!(d >= 0)", "!(d[0] >= 0 && d[1] >= 0 && d[2] >= 0)").replace("if (!(", "if (NOT("))
+
     class ArticulatedInertia:
         def __init__(self, M, F, J):
             self.M, self.F, self.J = M, F, J
@@ -146,6 +213,7 @@ def build(ctx):
     B.add_method(ArticulatedInertia, MP_CPP, r"ArticulatedInertia_<P>::shiftInPlace\(const Vec3P& s\)\s*", "shiftInPlace", members=AM, cxxname="ArticulatedInertia_::shiftInPlace")
     B.add_method(ArticulatedInertia, MP_H, r"SpatialVecP operator\*\(const SpatialVecP& v\) const\s*", "mulvec", members=AM, occurrence=2, cxxname="ArticulatedInertia_::operator*(SpatialVec)")
     B.dump_sources()
+    B.extra = dict(Rot=Rot, XForm=XForm, MassProperties=MassProperties, SM3=SM3)
     return B, Inertia, UnitInertia, SpatialInertia, ArticulatedInertia
 
 
@@ -269,6 +337,111 @@ def main(ctx):
     Gm = Mat([[z3.Real("H%d%d" % (i, j)) for j in range(3)] for i in range(3)])
     B.prove_eq("halfCrossDiff(v,F,G) == lower([v]x F - G [v]x)", Vec(*lower(f["halfCrossDiff"](x, Fm, Gm))), Vec(*lower(crossMat(x) * Fm - Gm * crossMat(x))), [], U3, "halfCrossDiff")
 
+
+    # ---------------- re-expression, transform, MassProperties_ ----------------
+    U4 = "massprops.transform"
+    X_ = B.extra; Rot, XForm, MassProperties, SM3 = X_["Rot"], X_["XForm"], X_["MassProperties"], X_["SM3"]
+    qb = Vec(*[z3.Real("b%d" % i) for i in range(4)]); unitb = [val(qb.normSqr()) == 1]
+    Rm = Rquat(qb); Rr = Rot(Rm)
+    sm = S.symmat33(*[z3.Real("S%d" % i) for i in range(6)])
+    T60 = 60000
+    B.prove_eq("Rotation::reexpressSymMat33 == R S ~R", Rr.reexpressSymMat33(sm), Rm * sm * ~Rm, unitb, U4, "Rotation_::reexpressSymMat33", timeout_ms=T60)
+    B.prove_eq("InverseRotation::reexpressSymMat33 == ~R S R", (~Rr).reexpressSymMat33(sm), (~Rm) * sm * Rm, unitb, U4, "InverseRotation_::reexpressSymMat33", timeout_ms=T60)
+    Ire = Inertia(sm).reexpress(Rr)
+    B.prove_eq("Inertia::reexpress(R_FB) == ~R I R", Ire.I_OF_F, (~Rm) * sm * Rm, unitb, U4, "Inertia_::reexpress", timeout_ms=T60)
+    # principal moments preserved: the characteristic polynomial (trace, sum of principal 2x2 minors, determinant) is invariant
+    A0, A1 = Mat(sm.m), Mat(Ire.I_OF_F.m)
+    tr = lambda A: A.m[0][0] + A.m[1][1] + A.m[2][2]
+    m2 = lambda A: (A.m[0][0] * A.m[1][1] - A.m[0][1] * A.m[1][0]) + (A.m[0][0] * A.m[2][2] - A.m[0][2] * A.m[2][0]) + (A.m[1][1] * A.m[2][2] - A.m[1][2] * A.m[2][1])
+    B.prove_eq("reexpress preserves the trace (sum of principal moments)", tr(A1), tr(A0), unitb, U4, "Inertia_::reexpress", timeout_ms=T60)
+    B.prove_eq("reexpress preserves the second invariant (sum of products of principal moments)", m2(A1), m2(A0), unitb, U4, "Inertia_::reexpress", timeout_ms=T60)
+    B.prove_eq("reexpress preserves the determinant (product of principal moments)", S.det3(A1), S.det3(A0), unitb, U4, "Inertia_::reexpress", timeout_ms=120000)
+    B.prove_eq("reexpress(R) then reexpress(~R) == identity", Inertia(sm).reexpress(Rr).reexpress(~Rr).I_OF_F, sm, unitb, U4, "Inertia_::reexpress", timeout_ms=T60)
+    # SpatialInertia: reexpress / transform keep momentum and kinetic energy consistent
+    G2 = UnitInertia(S.symmat33(*[z3.Real("G%d" % i) for i in range(6)]))
+    M2 = SpatialInertia(m, pp, G2)
+    Xfb = XForm(Rr, s)
+    Mt = SpatialInertia(M2).transform(Xfb)
+    B.prove_eq("SpatialInertia::transform: mass unchanged", Mt.m, m, unitb, U4, "SpatialInertia_::transformInPlace")
+    B.prove_eq("SpatialInertia::transform: mass centre == ~R (p - s) (measured from and expressed in the new frame)", Mt.p, (~Rm) * (pp - s), unitb, U4, "SpatialInertia_::transformInPlace", timeout_ms=T60)
+    V_F = sv("T")
+    V_B = SpatialVec((~Rm) * V_F[0], (~Rm) * (V_F[1] + cross(V_F[0], s)))         # the same motion measured at OB, expressed in B
+    B.prove_eq("kinetic energy V^T M V invariant under SpatialInertia::transform (shift + re-expression)", (~V_B) * (Mt * V_B), (~V_F) * (M2 * V_F), unitb, U4, "SpatialInertia_::transformInPlace", timeout_ms=120000)
+    # MassProperties_
+    U5 = "massprops.class"
+    mp = MassProperties(m, pp, G2)
+    Io = D(m) * G2.I_OF_F                                                        # inertia about the origin
+    pmI = lambda c_: (D(m) * c_.normSqr()) * I3 - D(m) * Mat([[c_[i] * c_[j] for j in range(3)] for i in range(3)])
+    B.prove_eq("MassProperties::calcInertia == m G", mp.calcInertia().I_OF_F, Io, [], U5, "MassProperties_::calcInertia")
+    B.prove_eq("MassProperties::calcCentralInertia == I_O - m(|c|^2 1 - c c^T)", mp.calcCentralInertia().I_OF_F, Io - pmI(pp), [], U5, "MassProperties_::calcCentralInertia")
+    B.prove_eq("MassProperties::calcShiftedInertia(s) == central + m(|s-c|^2 1 - (s-c)(s-c)^T)", mp.calcShiftedInertia(s).I_OF_F, Io - pmI(pp) + pmI(s - pp), [], U5, "MassProperties_::calcShiftedInertia")
+    def scripted(script, fn):
+        """run fn with the given decisions at its symbolic branches (here: the `m == 0` test of setMassProperties); returns (path conditions, result)"""
+        B.branch_script, B.branch_pos, B.path = list(script), 0, []
+        r_ = fn()
+        return list(B.path), r_
+    pth, shifted = scripted([False] * 4, lambda: mp.calcShiftedMassProps(s))
+    nz = [m != 0] + pth
+    sp_sh = SpatialInertia(M2).shift(s)
+    B.prove_eq("calcShiftedMassProps agrees with SpatialInertia::shift: mass centre", shifted.comInB, sp_sh.p, nz, U5, "MassProperties_::calcShiftedMassProps")
+    B.prove_eq("calcShiftedMassProps agrees with SpatialInertia::shift: inertia", D(val(shifted.mass)) * shifted.unitInertia_OB_B.I_OF_F, D(m) * sp_sh.G.I_OF_F, nz, U5, "MassProperties_::calcShiftedMassProps", timeout_ms=T60)
+    B.prove_eq("calcShiftedMassProps: central inertia unchanged by a shift of origin", shifted.calcCentralInertia().I_OF_F, mp.calcCentralInertia().I_OF_F, nz, U5, "MassProperties_::calcShiftedMassProps", timeout_ms=T60)
+    pth, tr_mp = scripted([False] * 4, lambda: mp.calcTransformedMassProps(Xfb))
+    nz = [m != 0] + pth
+    B.prove_eq("calcTransformedMassProps: mass unchanged", tr_mp.mass, m, nz, U5, "MassProperties_::calcTransformedMassProps")
+    B.prove_eq("calcTransformedMassProps agrees with SpatialInertia::transform: mass centre", tr_mp.comInB, Mt.p, unitb + nz, U5, "MassProperties_::calcTransformedMassProps", timeout_ms=T60)
+    B.prove_eq("calcTransformedMassProps: mass centre == ~X_BC * c = ~R (c - p)", tr_mp.comInB, (~Rm) * (pp - s), unitb + nz, U5, "MassProperties_::calcTransformedMassProps", timeout_ms=T60)
+    B.prove_eq("calcTransformedMassProps agrees with SpatialInertia::transform: inertia", D(val(tr_mp.mass)) * tr_mp.unitInertia_OB_B.I_OF_F, D(m) * Mt.G.I_OF_F, unitb + nz, U5, "MassProperties_::calcTransformedMassProps", timeout_ms=120000)
+    B.prove_eq("calcTransformedInertia == ~R (shifted inertia) R", mp.calcTransformedInertia(Xfb).I_OF_F, (~Rm) * Mat(mp.calcShiftedInertia(s).I_OF_F.m) * Rm, unitb, U5, "MassProperties_::calcTransformedInertia", timeout_ms=120000)
+    re_mp = mp.reexpress(Rr)
+    B.prove_eq("MassProperties::reexpress: mass centre == ~R c", re_mp.comInB, (~Rm) * pp, unitb, U5, "MassProperties_::reexpress", timeout_ms=T60)
+    B.prove_eq("MassProperties::reexpress: unit inertia == ~R G R", re_mp.unitInertia_OB_B.I_OF_F, (~Rm) * Mat(G2.I_OF_F.m) * Rm, unitb, U5, "MassProperties_::reexpress", timeout_ms=T60)
+    pth, mp0 = scripted([False] * 4, lambda: MassProperties(m, pp, Inertia(sm)))
+    nz = [m != 0] + pth
+    pth0, mpz = scripted([True] * 4, lambda: MassProperties(m, pp, Inertia(sm)))
+    B.prove_eq("MassProperties(m == 0, c, Inertia): unit inertia stored as zero", mpz.unitInertia_OB_B.I_OF_F, S.symmat33(0), pth0, U5, "MassProperties_::setMassProperties")
+    B.prove_bool("MassProperties(m, c, Inertia): the zero-mass branch is taken exactly for m == 0", z3.And(*pth0) == (m == 0), [], U5, "MassProperties_::setMassProperties")
+    B.prove_eq("MassProperties(m, c, Inertia): stored unit inertia * m == the inertia (m != 0)", D(m) * mp0.unitInertia_OB_B.I_OF_F, sm, nz, U5, "MassProperties_::setMassProperties", timeout_ms=T60)
+    # SpatialInertia += / -= : mass-weighted merge; momentum is additive; -= undoes +=
+    m_b = z3.Real("mb"); p_b = v3("cb"); G_b = UnitInertia(S.symmat33(*[z3.Real("Gb%d" % i) for i in range(6)]))
+    Ma, Mb = SpatialInertia(m, pp, G2), SpatialInertia(m_b, p_b, G_b)
+    Msum = SpatialInertia(Ma); Msum.iadd(Mb)
+    tot = [m + m_b != 0]
+    B.prove_eq("SpatialInertia +=: masses add", Msum.m, D(m) + D(m_b), tot, U5, "SpatialInertia_::operator+=")
+    B.prove_eq("SpatialInertia +=: momentum of the sum == sum of the momenta (any motion)", Msum * V_F, SpatialVec((Ma * V_F)[0] + (Mb * V_F)[0], (Ma * V_F)[1] + (Mb * V_F)[1]), tot, U5, "SpatialInertia_::operator+=", timeout_ms=T60)
+    Mback2 = SpatialInertia(Msum); Mback2.isub(Mb)
+    B.prove_eq("SpatialInertia (a += b) -= b: momentum restored (m_a != 0)", Mback2 * V_F, Ma * V_F, tot + [m != 0], U5, "SpatialInertia_::operator-=", timeout_ms=T60)
+
+    # ---------------- isValidInertiaMatrix ----------------
+    U6 = "massprops.valid"
+    sig = z3.Real("SignificantP"); f["SignificantP"] = D(sig)
+    dI = [z3.Real("I%d" % i) for i in (0, 2, 5)]        # diagonal of Isym: symmat33(a00,a10,a11,a20,a21,a22)
+    lo = [z3.Real("I%d" % i) for i in (1, 3, 4)]        # products: m10, m20, m21
+    trace = dI[0] + dI[1] + dI[2]
+    slop = z3.If(trace >= 1, trace, z3.RealVal(1)) * sig
+    sigpos = [sig > 0]
+    aabs = lambda e_: z3.If(e_ >= 0, e_, -e_)
+    documented = z3.And(dI[0] >= 0, dI[1] >= 0, dI[2] >= 0,
+                        dI[0] + dI[1] + slop >= dI[2], dI[0] + dI[2] + slop >= dI[1], dI[1] + dI[2] + slop >= dI[0],
+                        dI[0] + slop >= aabs(2 * lo[2]), dI[1] + slop >= aabs(2 * lo[1]), dI[2] + slop >= aabs(2 * lo[0]))
+    npv = 0; seenv = set()
+    for path, script, res in B.run_paths(lambda: f["isValidInertiaMatrix"](SM3(Isym)), 12):
+        key = tuple(str(c_) for c_ in path)
+        if key in seenv: continue
+        seenv.add(key)
+        s_ = z3.Solver(); s_.add(*(sigpos + path))
+        if s_.check() != z3.sat: continue
+        npv += 1
+        accepted = bool(res) if isinstance(res, bool) else res
+        if accepted is True:
+            B.prove_bool("isValidInertiaMatrix path %d (accepted): diagonals >= 0, triangle inequalities and product bounds hold within Significant*max(trace,1)" % npv, documented, sigpos + path, U6, "Inertia_::isValidInertiaMatrix")
+        elif accepted is False:
+            B.prove_bool("isValidInertiaMatrix path %d (rejected): some documented condition is violated by more than the relative slop Significant*max(trace,1)" % npv, z3.Not(documented), sigpos + path, U6, "Inertia_::isValidInertiaMatrix")
+        else:
+            ctx.undecide("isValidInertiaMatrix path %d returned a non-boolean %r" % (npv, res))
+    if npv < 4:
+        ctx.undecide("isValidInertiaMatrix: only %d feasible paths explored" % npv)
+
     s_ = z3.Solver(); s_.add(*unit)
     ctx.add(Obligation("guard:unit quaternion satisfiable", "guards", "z3", "discharged" if s_.check() == z3.sat else "undecided", 0, "reachability guard"))
     ctx.checker_cmds.append("z3 (python API, QF_NRA); SMT-LIB files in out/C29/smt2; cvc5 re-check in thorough tier")
@@ -276,8 +449,9 @@ def main(ctx):
     ctx.assume("machine arithmetic treated as mathematical (reals)")
     ctx.assume("class plumbing assumed (thin Python shim): Inertia_/UnitInertia_/SpatialInertia_/ArticulatedInertia_ constructors, copy, SymMat storage as a full symmetric matrix, scalar*Inertia, errChk() dropped")
     ctx.assume("Rotation matrices are parametrised by unit quaternions (proper orthonormal by C27)")
-    ctx.not_decided += ["isValidInertiaMatrix acceptance/rejection thresholds (float tolerances)", "positive semidefiniteness of accepted inertias",
-                        "Inertia reexpress (delegates to Rotation::reexpressSymMat33, proved in C27)", "MassProperties_ class, SpatialInertia += / -= (mass-weighted merge)"]
+    ctx.not_decided += ["positive semidefiniteness of accepted inertias (isValidInertiaMatrix tests necessary conditions only: diagonals, triangle inequalities, product bounds)",
+                        "float rounding in the validity thresholds (Significant is a symbolic positive real)", "errChk() debug-mode rejection in constructors and operators (dropped by the extractor)",
+                        "InverseTransform_/InverseRotation_ overloads other than reexpressSymMat33; toSpatialMat/toMat66; UnitInertia shape factories (sphere, cylinder, brick, ...)"]
     ctx.explanation = "%d functions transliterated; %d obligations." % (len(ctx.functions), len(ctx.obligations))
     return ctx.finish(replayer=lambda ob: replay(ctx, ob))
 
